@@ -277,7 +277,35 @@ _MORE = {
            'paired steps; the previous pointer is restored from the value read before the frame was pushed; external bindings '
            'are validated and a pending error is refused before the first change.',
 }
+# clauses added from seed batches 8 and 9 (DESIGN.md §10, §11)
+_MORE2 = {
+    'C01': ' Added from seed batch 9: in the ancestor walk after a divert, "entered at its start" is conjoined with a flag '
+           'that is cleared at the first container not entered at its start.',
+    'C03': ' Added from seed batch 9: the side of the elapsed-time test taken only when time has run out performs no write '
+           'on the story and sets no flag read afterwards (the clock decides only where a time-limited continue pauses).',
+    'C06': ' Added from seed batch 8: every object key under which the emitter stores a resolved label path is one of the '
+           'keys fix_divert_paths rewrites when a continuation is hoisted.',
+    'C07': ' Added from seed batch 8: for eight list operators, whether the result hands on the receiver\'s origin equals a '
+           'tabled answer (union, difference, sub-range: yes; intersection, inverse, all, min, max: no).',
+    'C10': ' Added from seed batch 8 and later: every replacement of the current flow / write of its output stream marks the '
+           'text and tag caches dirty on every successful path; the look-ahead copy is filled with the parked flows.',
+    'C11': ' Added from seed batch 9: complete_variable_observation is control dependent only on the refusal at entry, the '
+           'completion test and the outermost-continue test that also guards the start.',
+    'C13': ' Added from seed batch 9: the message lists are never assigned wholesale from another state, except into the '
+           'look-ahead copy.',
+    'C14': ' Added from seed batch 9: each elementary cycle of the streaming decoder\'s recursion adds exactly 1 to the depth, '
+           'and the limit accepts exactly the 128 levels serde_json accepts.',
+    'C16': ' Added from seed batch 8: the recorded evaluation-stack height is read, and the stack cut back, before the host '
+           'frame is popped.',
+    'C18': ' Added from seed batch 9: no function of the runtime touches a thread-local, static or lazily initialised global '
+           'cell (memory outside every Story).',
+    'C19': ' Added from seed batch 8: the whole-path sentinel test of Container::content_at_path is false for a length of 0, '
+           'which Story::pointer_at_path passes for a position directly in the root.',
+    'C20': ' Added from seed batch 9: the output file is written with fs::write or through a file created anew / truncated.',
+}
 for _k, _v in _MORE.items():
+    CHECKS[_k]['text'] += _v
+for _k, _v in _MORE2.items():
     CHECKS[_k]['text'] += _v
 
 NOT_APPLICABLE = {
